@@ -60,6 +60,11 @@ fn main() {
 		("C03", Some(c)) => checks::c03::replay(ctx.clone(), c),
 		("C04", None) => checks::c04::run(ctx.clone()),
 		("C04", Some(c)) => checks::c04::replay(ctx.clone(), c),
+		("C05", None) => checks::http::c05(ctx.clone()),
+		("C07", None) => checks::http::c07(ctx.clone()),
+		("C05", Some(c)) | ("C07", Some(c)) => println!("  case: {c}\n  re-run ./check {id} quick (deterministic) to reproduce"),
+		("C17", None) => checks::c17::run(ctx.clone()),
+		("C17", Some(c)) => checks::c17::replay(ctx.clone(), c),
 		("C08", None) => checks::c08::run(ctx.clone()),
 		("C08", Some(c)) => checks::c08::replay(ctx.clone(), c),
 		("C09", None) => checks::c09::run(ctx.clone()),
